@@ -64,8 +64,8 @@ def element_eval(key):
         if id(g) in seen or not callable(g):
             continue
         seen.add(id(g))
-        if hasattr(g, '__code__') and 'safe_eval' in g.__code__.co_freevars:
-            inner = g
+        if hasattr(g, '__code__') and 'args_parser' in g.__code__.co_freevars and 'otype' in g.__code__.co_freevars:
+            inner = g          # the wrapper made by wrap_ufunc (recognised by the factory's parameter names it closes over)
             break
         for cell in (getattr(g, '__closure__', None) or ()):
             try:
@@ -75,7 +75,64 @@ def element_eval(key):
         if getattr(g, '__wrapped__', None) is not None:
             stack.append(g.__wrapped__)
     cv = closure_vars(inner)
-    return cv['args_parser'], cv['safe_eval']
+    return cv['args_parser'], element_evaluator(inner)
+
+
+def element_evaluator(ufunc_wrapper):
+    """The per-element evaluator nested in wrap_ufunc (`safe_eval`, whatever it is called): the one function among the
+    wrapper's closure cells that was defined inside the factory."""
+    cv = closure_vars(ufunc_wrapper)
+    if 'safe_eval' in cv:
+        return cv['safe_eval']
+    # __qualname__ of the wrapper is overwritten by functools.update_wrapper: use the code objects' own qualified names
+    prefix = ufunc_wrapper.__code__.co_qualname.rsplit('.', 1)[0] + '.'
+    cands = [v for v in cv.values() if hasattr(v, '__code__') and v.__code__.co_qualname.startswith(prefix)]
+    return cands[0] if len(cands) == 1 else None
+
+
+def ufunc_wrapper_of(f):
+    """The wrap_ufunc wrapper reachable from a registered function object."""
+    seen, stack = set(), [f]
+    while stack:
+        g = stack.pop()
+        if id(g) in seen or not callable(g):
+            continue
+        seen.add(id(g))
+        if hasattr(g, '__code__') and 'args_parser' in g.__code__.co_freevars and 'otype' in g.__code__.co_freevars:
+            return g
+        for cell in (getattr(g, '__closure__', None) or ()):
+            try:
+                stack.append(cell.cell_contents)
+            except ValueError:
+                pass
+        if getattr(g, '__wrapped__', None) is not None:
+            stack.append(g.__wrapped__)
+    return None
+
+
+def find_nested(outer_wrapper, name):
+    """The nested function `name` of the factory that made `outer_wrapper`; if it was renamed, the only other function
+    nested in the same factory (the contracts do not depend on the spelling of inner helper names)."""
+    f = find_closure(outer_wrapper, name)
+    if f is not None:
+        return f
+    seen, stack, cands = set(), [outer_wrapper], []
+    while stack:
+        g = stack.pop()
+        if id(g) in seen or not callable(g):
+            continue
+        seen.add(id(g))
+        for cell in (getattr(g, '__closure__', None) or ()):
+            try:
+                v = cell.cell_contents
+            except ValueError:
+                continue
+            if hasattr(v, '__code__') and '<locals>' in getattr(v, '__qualname__', ''):
+                cands.append(v)
+            stack.append(v)
+        if getattr(g, '__wrapped__', None) is not None:
+            stack.append(g.__wrapped__)
+    return cands[0] if len({id(c) for c in cands}) == 1 else None
 
 
 def make_binary(key):
